@@ -156,6 +156,18 @@ Proof.
     + rewrite fupd_other by exact Hne. eapply TI_frame; [..|apply HT]; reflexivity.
 Qed.
 
+(* the allocator of params dicts is invisible to the protocol invariant *)
+Definition with_dict (st : state) (d : nat -> option nat) (n : nat) : state :=
+  {| s_slot := s_slot st; s_rv := s_rv st; s_pat := s_pat st; s_conv := s_conv st;
+     s_lock := s_lock st; s_pc := s_pc st; s_heap := s_heap st; s_dict := d; s_next := n |}.
+
+Lemma inv_with_dict st d n : Inv st -> Inv (with_dict st d n).
+Proof.
+  intros [HG HT]. split.
+  - eapply GI_frame; eauto; reflexivity.
+  - intro j. eapply TI_frame; [..|apply HT]; reflexivity.
+Qed.
+
 (* another thread cannot be in the critical section / read a compiled slot while i compiles *)
 Lemma other_excluded st i j :
   j <> i -> s_lock st = Some i -> s_slot st = Delayed -> TI st j (s_pc st j) ->
@@ -177,8 +189,12 @@ Lemma step_inv st i : Inv st -> Inv (step st i).
 Proof.
   intros [HG HT]. pose proof (HT i) as Hi. unfold Model.step.
   destruct (s_pc st i) as [|f|f rv|f rv pat|f rv pat cv| | | | | |todo cmap| |r] eqn:Hpc.
-  - (* P0 *) apply inv_set_pc; [split; assumption|]. unfold GI in HG. simpl.
-    destruct (s_slot st); [exact I | reflexivity].
+  - (* P0 *)
+    assert (H1 : Inv (set_pc st i (P1 (s_slot st)))).
+    { apply inv_set_pc; [split; assumption|]. unfold GI in HG. simpl.
+      destruct (s_slot st); [exact I | reflexivity]. }
+    destruct (s_dict st i); [exact H1|].
+    exact (inv_with_dict _ (fupd (s_dict st) i (Some (s_next st))) (S (s_next st)) H1).
   - (* P1 *) apply inv_set_pc; [split; assumption|]. simpl in *. destruct f; auto.
   - (* P2 *) apply inv_set_pc; [split; assumption|]. simpl in *. destruct f; [auto | tauto].
   - (* P3 *) apply inv_set_pc; [split; assumption|]. simpl in *. destruct f; [auto | tauto].
@@ -291,6 +307,59 @@ Proof.
 Qed.
 
 End Safe.
+
+(* ---- every lookup works on its own params dict: the dict a thread holds was created by that
+   thread's own find() call, and no two threads hold the same one — whatever the schedule, with
+   or without the lock *)
+Section Fresh.
+Variable cinst : str -> option str -> cres.
+Variable cmulti : str -> bool.
+Variable roots : list node.
+Variable paths : nat -> list str.
+Variable use_lock recheck : bool.
+Notation step := (Model.step cinst cmulti roots paths use_lock recheck).
+
+Definition DI (st : state) : Prop :=
+  (forall i a, s_dict st i = Some a -> a < s_next st) /\
+  (forall i j a, s_dict st i = Some a -> s_dict st j = Some a -> i = j).
+
+Lemma step_dict st i :
+  (s_dict (step st i) = s_dict st /\ s_next (step st i) = s_next st) \/
+  (s_dict st i = None /\ s_dict (step st i) = fupd (s_dict st) i (Some (s_next st)) /\
+   s_next (step st i) = S (s_next st)).
+Proof.
+  unfold Model.step.
+  destruct (s_pc st i) as [|f|f rv|f rv pat|f rv pat cv| | | | | |todo cmap| |r]; simpl; auto.
+  - destruct (s_dict st i) eqn:E; simpl; auto.
+  - destruct f; simpl; auto.
+  - destruct use_lock; simpl; auto. destruct (s_lock st); simpl; auto.
+  - destruct (s_slot st); simpl; auto.
+  - destruct todo as [|[r|p|c] todo]; simpl; auto. destruct (s_conv st); simpl; auto.
+Qed.
+
+Lemma step_DI st i : DI st -> DI (step st i).
+Proof.
+  intros [H1 H2]. destruct (step_dict st i) as [[E1 E2] | (E0 & E1 & E2)]; unfold DI; rewrite E1, E2.
+  - split; assumption.
+  - split.
+    + intros k a. unfold fupd. destruct (Nat.eqb k i).
+      * intro H. injection H as <-. lia.
+      * intro H. specialize (H1 _ _ H). lia.
+    + intros k j a. unfold fupd.
+      destruct (Nat.eqb_spec k i) as [->|Hk]; destruct (Nat.eqb_spec j i) as [->|Hj]; auto.
+      * intros H H'. injection H as <-. specialize (H1 _ _ H'). lia.
+      * intros H H'. injection H' as <-. specialize (H1 _ _ H). lia.
+      * apply H2.
+Qed.
+
+Theorem params_fresh sched :
+  DI (run_sched cinst cmulti roots paths use_lock recheck sched).
+Proof.
+  unfold run_sched. assert (H : DI state0) by (split; intros; discriminate).
+  revert H. generalize state0. induction sched as [|i sched IH]; intros st H; simpl; [exact H|].
+  apply IH, step_DI, H.
+Qed.
+End Fresh.
 
 (* ---- oracle *)
 Lemma obs_eqb_refl o : obs_eqb o o = true.
